@@ -310,6 +310,36 @@ def evaluate(prop, res):
                 if not ok:
                     add("violation", "operation panics", {"op": l, "declaration": w[1]})
 
+    # ---- AST comparison of the emitted bodies with the model's (translation validation of the macro output) ----------
+    ast = res.get("ast", {})
+    for (name, item, rsx, msx) in [tuple(x) for x in ast.get("differ", [])] + [(x[0], x[1], x[2], "") for x in ast.get("untranslatable", [])]:
+        d = table.get(name)
+        if d is None:
+            continue
+        if item in ("raw_value", "new_with_raw_value"):
+            ps = {"C06", "C11", "C16"}
+        else:
+            base = item
+            kind = "get"
+            for pre in ("with_", "set_"):
+                if item.startswith(pre):
+                    base = item[len(pre):]
+                    kind = "write"
+            fdef = next((x for x in d["fields"] if render.ident_noraw(x["name"]) == base or x["name"] == base), None)
+            if fdef is None and kind == "write":
+                fdef = next((x for x in d["fields"] if x["name"] == item or render.ident_noraw(x["name"]) == item), None)
+                kind = "get"
+            ps = field_props(d, fdef, kind) if fdef else set()
+            if kind == "write":
+                ps |= {"C12"} | ({"C13"} if "builder" in d["classes"] else set())
+        if prop in ps:
+            add("correspondence", "the emitted body differs from the body the model generates (the theorems are about the latter)",
+                {"declaration": name, "item": item, "real": rsx, "model": msx})
+    if ast:
+        cov["ast_equal_bodies"] = ast.get("equal", 0)
+        cov["ast_differing_bodies"] = ast.get("differ_count", 0)
+        cov["ast_untranslatable_bodies"] = ast.get("untranslatable_count", 0)
+
     # ---- declarations rustc accepted but whose runner code does not compile ------------------------------------------
     for name, errs in res.get("runner_dropped", {}).items():
         d = table.get(name)
@@ -504,6 +534,10 @@ def evaluate(prop, res):
                     w = fl.split(" ")
                     add("violation", "compile-time result differs from run-time result", {"line": fl, "declaration": w[1], "profile": prof})
         cov["const_evaluated"] = res.get("const_ok", 0)
+        for name, errs in res.get("const_failed", {}).items():
+            d = table.get(name)
+            add("violation", "a listed operation cannot be evaluated in a const context (the const items of this declaration do not compile)",
+                {"declaration": name, "errors": errs[:3], "source": decl_source(table, d)[0] if d else ""})
         for name, errs in res.get("runner_dropped", {}).items():
             text = " ".join(errs)
             if "non-const" in text or "E0015" in text or "in constants" in text or "const fn" in text:
@@ -570,8 +604,38 @@ def matches_known(k, f):
     return all(s in text for s in k.get("match_all", []))
 
 
+def replay(path):
+    """re-runs the declaration of a replay file (alone, with the types it depends on) against /repo's working tree and
+    re-evaluates the property on it; exit 1 when the violation shows again"""
+    with open(path) as fh:
+        rp = json.load(fh)
+    prop = rp["property"]
+    print("replay of %s: %s" % (prop, rp.get("what") or rp.get("kind")))
+    if "declaration_json" not in rp:
+        print(json.dumps(rp, indent=1)[:4000])
+        print("this replay names a broken proof obligation / correspondence, not a single declaration; re-run ./check %s" % prop)
+        return 1
+    decls = list(rp.get("deps_json", [])) + [rp["declaration_json"]]
+    os.environ.setdefault("VERIF_WORK", os.path.join(pipeline.WORK_ROOT, "replay"))
+    pipeline.WORK_ROOT = os.environ["VERIF_WORK"]
+    res = pipeline.build_and_run(rp.get("tier", "quick"), rp.get("seed", 1), ("dev", "release"), decls_override=decls)
+    findings, cov = evaluate(prop, res)
+    print(rp.get("source", ""))
+    name = rp["declaration_json"]["name"]
+    print("rustc verdict: %s" % ("accepted" if name in res["rustc_accepted"] else "rejected: %s" % res["rustc_rejected"].get(name, [""])[:2]))
+    print("model verdict: %s" % res["model"].get(name, {}).get("verdict"))
+    real = [f for f in findings if f.kind == "violation"]
+    for f in findings[:20]:
+        print("%s: %s %s" % (f.kind.upper(), f.what, json.dumps(f.detail)[:400]))
+    if not findings:
+        print("no disagreement on this declaration now")
+    return 1 if real else 0
+
+
 def main(argv):
     t0 = time.time()
+    if len(argv) >= 3 and argv[1] == "replay":
+        return replay(argv[2])
     prop = argv[1]
     tier = os.environ.get("VERIF_TIER", "quick")
     if "--tier" in argv:
@@ -628,9 +692,12 @@ def main(argv):
         for n, f in enumerate(real[:5]):
             d = table.get(f.detail.get("declaration", ""))
             payload = {"property": prop, "kind": "failing-input", "what": f.what, "detail": f.detail, "tier": tier, "seed": seed}
-            if d is not None and "source" not in f.detail:
-                payload["source"], payload["depends_on"] = decl_source(table, d)
+            if d is not None:
+                src, deps = decl_source(table, d)
+                payload.setdefault("source", src)
+                payload["depends_on"] = deps
                 payload["declaration_json"] = d
+                payload["deps_json"] = [table[x] for x in deps]
             path = write_replay(n, payload)
             out_lines.append("VIOLATION property=%s replay=%s" % (prop, path))
         rc = 1
